@@ -59,8 +59,15 @@ def showFail (f : Fail Rat) : String :=
 def verdict (clausePrefix : String) (checkDegenerate : Bool) (inp : Input Rat) : String :=
   let r := check inp
   match r.fails with
-  | f :: _ =>
-    let cls := if f.f == 0 then "uncovered" else if decide (f.f ≥ 2) && inp.rule.isIn f.w then "overlap" else "spurious"
+  | f0 :: _ =>
+    -- report the most serious kind of failing gap: a coverage error (uncovered / spurious) before a
+    -- pure overlap (covered more than once where the rule says "in")
+    let unc := r.fails.find? (fun f => f.f == 0)
+    let spur := r.fails.find? (fun f => decide (f.f ≥ 1) && !(inp.rule.isIn f.w))
+    let (cls, f) := match unc, spur with
+      | some f, _ => ("uncovered", f)
+      | none, some f => ("spurious", f)
+      | none, none => ("pure-overlap", f0)
     "fail " ++ clausePrefix ++ "/" ++ modeName inp.mode ++ " " ++ cls ++ " " ++ showFail f
       ++ " nfails=" ++ toString r.fails.length
   | [] =>
